@@ -32,13 +32,21 @@ def main(argv=None):
     wd = threading.Timer(budget, _timeout)
     wd.daemon = True
     wd.start()
-    if args.replay:
-        with open(args.replay) as f:
-            rec = json.load(f)
-        mod.replay(ctx, rec)
-    else:
-        mod.run(ctx)
+    crashed = None
+    try:
+        if args.replay:
+            with open(args.replay) as f:
+                rec = json.load(f)
+            mod.replay(ctx, rec)
+        else:
+            mod.run(ctx)
+    except BaseException as e:  # noqa
+        import traceback
+        crashed = traceback.format_exc()
+        ctx.selftest_fail('the check itself raised %s: %s' % (type(e).__name__, str(e)[:200]))
     rc = ctx.finish()
+    if crashed:
+        print(crashed[-1500:])
     sys.stdout.flush()
     sys.stderr.flush()
     os._exit(rc)
